@@ -2,7 +2,7 @@
 import numpy as np
 
 from common import driver_batch
-from modelspec import build_model, sim_job
+from modelspec import build_model, sim_job, spec_matrices
 import simcorr
 
 
@@ -41,14 +41,14 @@ def with_counters(spec):
     return s2
 
 
-def monitor(ctx, spec, M, kind, T, seed, safe, rows, where):
+def monitor(ctx, spec, M, kind, T, seed, safe, rows, where, reused=False):
     """the property stated on implementation output."""
     sl = M.get_species_list()
-    U = np.array(M.py_get_update_array())
-    D = np.array(M.py_get_delay_update_array())
+    # the stoichiometries the trajectory is held against come from the reaction definition, not from the model object
+    U, D = spec_matrices(spec, sl)
     S = U + D
-    x0 = np.array(M.get_species_array(), dtype=float)
-    rep = {"spec": spec, "kind": kind, "grid": [float(t) for t in T], "seed": seed, "safe": safe}
+    x0 = np.array([float(spec["ic"].get(s_, 0)) for s_ in sl])
+    rep = {"spec": spec, "kind": kind, "grid": [float(t) for t in T], "seed": seed, "safe": safe, "model_reused": reused}
     if np.any(rows != np.round(rows)):
         ctx.violation("integrality/" + kind, "a reported count is not an integer", dict(rep, rows=rows.tolist()[:5]))
         return
@@ -116,9 +116,10 @@ def safe_complement(ctx, spec, T, seed, kind="ssa"):
         prev = rows[i]
 
 
-def one(ctx, spec, kind, T, seeds, safe):
-    ctx.begin_case({"spec": spec, "kind": kind, "grid": [float(t) for t in T], "seeds": seeds, "safe": safe})
-    M = build_model(spec)
+def one(ctx, spec, kind, T, seeds, safe, M=None):
+    reused = M is not None
+    ctx.begin_case({"spec": spec, "kind": kind, "grid": [float(t) for t in T], "seeds": seeds, "safe": safe, "model_reused": M is not None})
+    M = build_model(spec) if M is None else M
     dt = float(T[1] - T[0])
     jobs = [sim_job(M, kind, T, s, dt, safe=safe, fuel=simcorr.FUEL, spec=spec) for s in seeds]
     ans = driver_batch(jobs)
@@ -134,8 +135,8 @@ def one(ctx, spec, kind, T, seeds, safe):
         ctx.evaluated()
         d = simcorr.compare(r, a, kind)
         if d is not None:
-            ctx.broke("corr_C06_trajectory_bit_exact_" + kind, {"spec": spec, "kind": kind, "grid": [float(t) for t in T], "seed": s, "safe": safe, "difference": d})
-        monitor(ctx, spec, M, kind, T, s, safe, r["rows"], kind)
+            ctx.broke("corr_C06_trajectory_bit_exact_" + kind, {"spec": spec, "kind": kind, "grid": [float(t) for t in T], "seed": s, "safe": safe, "model_reused": reused, "difference": d})
+        monitor(ctx, spec, M, kind, T, s, safe, r["rows"], kind, reused=reused)
         if np.any(np.diff(r["rows"], axis=0) != 0):
             ctx.nontriv((kind, safe, str(sorted((x["prop"]["type"], tuple(x["reactants"])) for x in spec["reactions"])), s % 5))
     ctx.count("runs:" + kind + ("/safe" if safe else ""), len(seeds))
@@ -190,7 +191,14 @@ def run(ctx):
         one(ctx, spec, "ssa", T, seeds, safe)
         one(ctx, spec, "ssa", T, seeds, True)
         one(ctx, spec, "volume", T, seeds, safe)
-        one(ctx, add_delays(rng, spec), "delay", T, seeds, safe)
+        dspec = add_delays(rng, spec)
+        one(ctx, dspec, "delay", T, seeds, safe)
+        if i % 3 == 0:
+            # one model object handed to one simulator after the other, as a session does (simulators without a queue
+            # apply the delayed part at the firing time)
+            Md = build_model(dspec)
+            for kind in ("volume", "ssa", "delayvolume", "volume", "delay"):
+                one(ctx, dspec, kind, T, seeds[:2], safe, M=Md)
         if i % 2 == 0:
             Td = np.linspace(0, 2.0, 401)
             safe_complement(ctx, spec, Td, seeds[0])
@@ -206,13 +214,17 @@ def replay(ctx, obj):
         spec["species"] = [s for s in spec["species"] if not s.startswith("Cnt")]
         spec["reactions"] = [dict(r, products=[p for p in r["products"] if not p.startswith("Cnt")]) for r in spec["reactions"]]
         safe_complement(ctx, spec, np.array(rep["grid"]), rep["seed"], kind=rep.get("kind", "ssa"))
+    elif rep.get("model_reused"):
+        Md = build_model(rep["spec"])
+        for kind in ("volume", "ssa", "delayvolume", "volume", "delay"):
+            one(ctx, rep["spec"], kind, np.array(rep["grid"]), [rep["seed"]], rep.get("safe", False), M=Md)
     else:
         one(ctx, rep["spec"], rep.get("kind", "ssa"), np.array(rep["grid"]), [rep["seed"]], rep.get("safe", False))
 
 
 def describe(ctx):
     rule = ("random networks over A,B,C (all propensity types; consuming non-mass-action reactions only in safe mode) x uniform grids x "
-            "seeds, run through the plain SSA, safe SSA, volume (constant V) and delay simulators; on every reported row of the "
+            "seeds, run through the plain SSA, safe SSA, volume (constant V), delay and delay+volume simulators, also with one model object handed to one simulator after the other; on every reported row of the "
             "implementation: integrality, membership of each row difference in the non-negative integer cone of the stoichiometric "
             "columns (exact MILP feasibility), every left-null-space conservation law, non-negativity (mass action / safe), persistence "
             "of zero-propensity states; safe mode with counting products on a dense grid: every single firing had its full complement "
